@@ -2,7 +2,7 @@
 from bounded import harness, enumchecks
 from bounded.corpus import corpus, bound_text
 
-FAMILIES = ['sel', 'inc', 'con', 'conx', 'forced', 'conn', 'dvmet']
+FAMILIES = ['sel', 'inc', 'con', 'conx', 'forced', 'conn', 'dvmet', 'mix']
 
 
 def member(desc, tier, seed):
